@@ -168,6 +168,13 @@ def _prelude():
         rule = le.UnicodeToLatexConversionRule(le.RULE_DICT, {0x2460: '(1)', ord('a'): 'A'})
         for rules in (['defaults', 'unicode-xml'], ['unicode-xml', 'defaults'], ['defaults', rule], ['unicode-xml', rule]):
             le.UnicodeToLatexEncoder(conversion_rules=rules, unknown_char_policy='keep').unicode_to_latex('a\u2460\u0328')
+        # somebody asks for the built-in rule objects and customises the ones they were given (the documented
+        # per-rule protection setting) for an encoder of their own
+        for name in ('defaults', 'unicode-xml'):
+            mine = le.get_builtin_conversion_rules(name)
+            for r in mine:
+                r.replacement_latex_protection = 'none'
+            le.UnicodeToLatexEncoder(conversion_rules=mine).unicode_to_latex('\u0142abel')
     except Exception:
         pass
 
